@@ -84,6 +84,9 @@ func c02Msg(c *Ctx, stream string, b []byte, measure bool) {
 		c.Pred(stream, "alloc-bounded", in, alloc <= bound, fmt.Sprint(alloc), fmt.Sprint("<= ", bound), true)
 	}
 	c.Pred(stream, "no-panic-no-hang", in, out == "ok" || out == "err", out, "ok|err", len(b) > 12)
+	if out == "ok" || out == "err" {
+		msgUnpackCorr(c, stream, b)
+	}
 	c.Pred(stream, "time-bounded", in, el < 2*time.Second, el.String(), "< 2s", false)
 	c.Hit("unpack:" + out)
 	if out != "ok" {
